@@ -438,12 +438,12 @@ def run_instance(ctx, inst):
         try:
             rc0, out0, _, _, _ = run_cmd(["cbmc", gbw, "--function", "harness", "--no-standard-checks", "--drop-unused-functions",
                                           "--show-properties", "--json-ui"], 300, inst.mem_gb)
-            wid = None
+            wids = []
             for m in json.loads(out0):
                 for pr in m.get("properties", []) if isinstance(m, dict) else []:
                     if pr.get("description") == "VP_WITNESS":
-                        wid = pr.get("name")
-            if wid:
+                        wids.append(pr.get("name"))
+            for wid in wids:
                 wcmd += ["--property", wid]
         except Exception:
             pass
